@@ -207,8 +207,12 @@ def coq_op(op):
     return f"VSlice {oz(op[1])} {oz(op[2])} {oz(op[3])}"
 
 
-def coq_case(c, fixed=False):
-    fx = "(true,true,true)" if fixed else "(false,false,false)"
+PINNED = (False, False, False)
+ALL_FIXED = (True, True, True)
+
+
+def coq_case(c, fx=PINNED):
+    fx = "(" + ",".join(cbool(b) for b in fx) + ")"
     feats = "[" + ";".join(f"({pairs(sp)},{cbool(m)})" for sp, m in c["feats"]) + "]"
     ops = "[" + ";".join(coq_op(o) for o in c["ops"]) + "]"
     add = "None" if c["add"] is None else f"(Some ({pairs(c['add'][0])},{cbool(c['add'][1])}))"
@@ -216,7 +220,7 @@ def coq_case(c, fixed=False):
     return (f"({0 if c['impl'] == 'old' else 1}, {fx}, {zstr(c['parent'])}, {zlit(c['off'])}, {feats}, {ops}, {add}, {qs})")
 
 
-def run_model(cases, fixed=False):
+def run_model(cases, fx=PINNED):
     """cases are grouped so that every generated file holds a similar amount of work"""
     out = [None] * len(cases)
     groups = {}
@@ -226,8 +230,8 @@ def run_model(cases, fixed=False):
         groups.setdefault(size, []).append(n)
     for size, ns in groups.items():
         res = core.coq_eval(PROP, ["Model.View", "Model.Annot", "Model.AnnotRun"], "run_case",
-                            [coq_case(cases[n], fixed) for n in ns], "case", shard=size,
-                            tag=("f" if fixed else "p") + str(size))
+                            [coq_case(cases[n], fx) for n in ns], "case", shard=size,
+                            tag="".join("ft"[b] for b in fx) + str(size))
         for n, r in zip(ns, res):
             out[n] = r
     return out
@@ -258,6 +262,11 @@ def norm_impl_item(x):
 
 # ------------------------------------------------------------------ plain-Python oracle (the specification)
 
+def is_contiguous(c, idx):
+    """the view displays a contiguous parent segment (no slice of the history had a stride)"""
+    return all(op[0] == "rc" or op[3] in (None, 1) for op in c["ops"]) or len(idx) == len(c["parent"])
+
+
 def oracle_feature(c, idx, rev, k, spans, minus):
     """what a returned feature must look like on the view: computed from position sets only"""
     off = c["off"]
@@ -269,7 +278,7 @@ def oracle_feature(c, idx, rev, k, spans, minus):
     if minus:
         s = rcs(s)
     exp = dict(k=k, minus=(minus != rev), slice=s)
-    contiguous = len(idx) < 2 or abs(idx[1] - idx[0]) == 1
+    contiguous = is_contiguous(c, idx)
     if contiguous:
         lo, hi = off + min(idx), off + max(idx) + 1
         kept = [(max(a, lo), min(b, hi)) for a, b in spans if max(a, lo) < min(b, hi)]
@@ -286,7 +295,7 @@ def oracle_window(c, idx, q):
     """absolute [lo, hi) of a proper window on a contiguous view, else None (specification silent)"""
     ws, we, _ = q
     n = len(idx)
-    if n == 0 or (n > 1 and abs(idx[1] - idx[0]) != 1):
+    if n == 0 or not is_contiguous(c, idx):
         return None
     if we == 0 and ws is not None:
         return None
@@ -321,7 +330,7 @@ def check_item(exp, got):
 
 
 def shape(c, idx, rev, spans, minus):
-    contiguous = len(idx) < 2 or abs(idx[1] - idx[0]) == 1
+    contiguous = is_contiguous(c, idx)
     return (f"{c['impl']}:view={'rev' if rev else 'fwd'}{'' if contiguous else '-strided'}:"
             f"feat={'-' if minus else '+'}{'multi' if len(spans) > 1 else 'single'}:"
             f"{'offset' if c['off'] else 'nooffset'}")
@@ -362,7 +371,7 @@ def compare_case(rep, c, impl, model, stats, pending):
         sp, m = c["add"]
         # the residues the user pointed at, in absolute plus-strand coordinates
         n = len(idx)
-        contiguous = len(idx) < 2 or abs(idx[1] - idx[0]) == 1
+        contiguous = is_contiguous(c, idx)
         if contiguous and n:
             pos = sorted((c["off"] + min(idx[a:b]), c["off"] + max(idx[a:b]) + 1) for a, b in sp)
             add_abs = ([list(x) for x in pos], (m != rev))
@@ -468,13 +477,32 @@ def build_cases(tier, seed):
     return cases
 
 
+def detect_fixes(impl_corpus):
+    """which of the proposed repairs the implementation under test already carries, read off the
+    corpus cases (only used to choose which model variant is evaluated first)"""
+    def item(r, qi=0, k=0):
+        try:
+            return norm_impl_item(r[1][qi][k])
+        except Exception:  # noqa: BLE001
+            return None
+    a = item(impl_corpus[0])
+    fx_bound = a is not None and not isinstance(a, Exc)
+    b = item(impl_corpus[3])
+    fx_mapped = isinstance(b, list) and b[4] == [4, 8, 1]
+    d = item(impl_corpus[4])
+    fx_add = d is not None and not isinstance(d, Exc)
+    return (fx_bound, fx_mapped, fx_add)
+
+
 def evaluate(rep, cases, pr_broken=False):
     stats = dict(evaluations=0, violations=0, nontrivial=set())
     pending = []
     impl = core.run_impl_sharded("c04_impl.py", cases)
+    primary = detect_fixes(impl[:len(CORPUS)]) if cases[:len(CORPUS)] == CORPUS else PINNED
+    stats["model_variant"] = dict(zip(("fx_bound", "fx_mapped", "fx_add"), primary))
     model = None
     try:
-        model = run_model(cases)
+        model = run_model(cases, primary)
     except core.CheckError as e:
         if not pr_broken:
             raise
@@ -483,26 +511,29 @@ def evaluate(rep, cases, pr_broken=False):
         model = [[None, [None] * len(c["queries"]), None] for c in cases]
     for c, ir, mr in zip(cases, impl, model):
         compare_case(rep, c, ir, mr, stats, pending)
-    # second pass: an implementation that already carries the proposed repairs follows the repaired model
+    # second pass: an implementation that carries another subset of the proposed repairs may follow
+    # the pinned or the fully repaired model on the remaining cases
     dis = []
-    if pending and model is not None:
-        redo = []
-        seen = set()
+    idx_of = {id(c): n for n, c in enumerate(cases)}
+    for alt in (ALL_FIXED, PINNED):
+        if not pending or alt == primary:
+            continue
+        redo, seen = [], set()
         for c, *_ in pending:
             if id(c) not in seen:
                 seen.add(id(c))
                 redo.append(c)
-        idx_of = {id(c): n for n, c in enumerate(cases)}
-        fixed_model = run_model(redo, fixed=True)
+        alt_model = run_model(redo, alt)
         stats2 = dict(evaluations=0, violations=0, nontrivial=set())
         pending2 = []
         quiet = core.Report(PROP, rep.tier, rep.seed)
         quiet.violation = lambda *a, **k: None
-        for c, mr in zip(redo, fixed_model):
+        for c, mr in zip(redo, alt_model):
             compare_case(quiet, c, impl[idx_of[id(c)]], mr, stats2, pending2)
-        for c, where, got, mm in pending2:
-            dis.append(dict(key=f"{c['block']}:{where.split(':')[0]}", case=c, where=where, observed_impl=jsonable(got),
-                            model_output_fixed=jsonable(mm)))
+        pending = pending2
+    for c, where, got, mm in pending:
+        dis.append(dict(key=f"{c['block']}:{where.split(':')[0]}", case=c, where=where, observed_impl=jsonable(got),
+                        model_output=jsonable(mm)))
     return stats, dis, impl
 
 
@@ -537,6 +568,7 @@ def run(tier: str, seed: int) -> int:
                  "feature_slice theorem assumes no feature span ends exactly at the view start (pinned code raises there: "
                  "see make_feature_raises_refuted)"],
         model_impl_disagreements=len(dis), spec_violations=stats["violations"], exhaustive=False,
+        model_variant=stats["model_variant"],
     )
     core.conclude(rep, pr, f"{len(cases)} cases / {stats['evaluations']} feature observations against the position-set oracle",
                   dis[:5], "Model.AnnotRun.run_case vs cogent3 Sequence.get_features/make_feature/Feature.get_slice", tier, PROP)
